@@ -130,6 +130,32 @@ pub fn run(cx: &mut Ctx) {
             }
         }
     });
+    if !miri {
+        // thresholds: record counts around 4096 / 65536 and body sizes around multiples of 4 KiB
+        for (k, count) in [1023usize, 1024, 1025, 4095, 4096, 4097, 5000, 65535, 65536, 65537].into_iter().enumerate() {
+            if count > 6000 && cx.a.quick() && k % 2 == 0 {
+                continue;
+            }
+            cx.case("many_records", |c| {
+                c.sit("record_count_around_4096_or_65536");
+                let files: Files = (0..count).map(|i| (format!("f{:05}.bin", i), vec![(i % 251) as u8; i % 4])).collect();
+                let mut rng = c.rng.clone();
+                let plan = ArcPlan { padded_header: rng.bool(), shuffle_records: rng.bool(), tables_first: rng.bool(), ..Default::default() };
+                c.rng = rng;
+                check(c, &files, &plan);
+            });
+        }
+        for size in [4095usize, 4096, 4097, 8191, 8192, 8193, 12288, 65535, 65536, 65537, 1 << 20] {
+            cx.case("body_size_thresholds", |c| {
+                c.sit("body_size_around_multiples_of_4096");
+                let mut rng = c.rng.clone();
+                let files: Files = vec![("head.bin".into(), rng.bytes(3)), ("big.bin".into(), rng.bytes(size)), ("tail.bin".into(), rng.bytes(4096))];
+                let plan = ArcPlan { padded_header: rng.bool(), shuffle_bodies: rng.bool(), tables_first: rng.bool(), ..Default::default() };
+                c.rng = rng;
+                check(c, &files, &plan);
+            });
+        }
+    }
     let n = cx.a.n(1_000_000, 4_000_000);
     for _ in 0..n {
         cx.case("random", |c| {
